@@ -73,6 +73,15 @@ pub(crate) struct FlushWorker<T: Types> {
     /// `Relaxed` is sufficient because the actual data synchronization is
     /// provided by the `RwLock` on `PayloadCache`.
     done_seq: Arc<AtomicU64>,
+
+    /// Whether the most recent sync failed. While it is set, data written so
+    /// far (e.g. a purge record) may not be durable, so no chunk file may be
+    /// removed.
+    last_sync_failed: bool,
+
+    /// Chunk files scheduled for removal, oldest first. They are kept until
+    /// a sync has succeeded after they were scheduled.
+    pending_removal: Vec<String>,
 }
 
 impl<T: Types> FlushWorker<T> {
@@ -103,6 +112,8 @@ impl<T: Types> FlushWorker<T> {
             files: vec![file_entry],
             cache,
             done_seq,
+            last_sync_failed: false,
+            pending_removal: Vec::new(),
         }
     }
 
@@ -178,6 +189,7 @@ impl<T: Types> FlushWorker<T> {
                             e
                         );
                     }
+                    self.last_sync_failed = res.is_err();
                     res
                 } else {
                     Ok(())
@@ -238,8 +250,21 @@ impl<T: Types> FlushWorker<T> {
             }
             WorkerRequest::RemoveChunks { chunk_paths } => {
                 info!("FlushWorker: RemoveChunks: {:?}", chunk_paths);
-                for path in chunk_paths {
-                    std::fs::remove_file(path)?;
+                self.pending_removal.extend(chunk_paths);
+                if self.last_sync_failed {
+                    // The purge record that makes these chunks obsolete is
+                    // not known to be durable: keep the files for now. They
+                    // are removed, oldest first, with the next RemoveChunks
+                    // after a successful sync, or loaded again by open().
+                    log::error!(
+                        "FlushWorker: last sync failed, keep chunks: {:?}",
+                        self.pending_removal
+                    );
+                    return Ok(());
+                }
+                while !self.pending_removal.is_empty() {
+                    std::fs::remove_file(&self.pending_removal[0])?;
+                    self.pending_removal.remove(0);
                 }
             }
         }
